@@ -18,19 +18,48 @@ def run(tier, seed):
     for owner, sig, what, rp in tr["failures"]:
         if owner == "C04":
             out.violate(sig, what, rp)
+    n_mc = 0
+    for sig, what, rp in metric_change_cotangent():
+        n_mc += 1
+        if what:
+            out.violate(sig, what, rp)
     cons = [t for t in tr["traces"] if t["kind"] == "constrained"]
     b = r["behaviours"][len(r["behaviours"]) // 2]
     out.coverage = {
         "states": r["stats"]["distinct"] + tr["states"], "transitions": r["stats"]["generated"] + tr["states"],
         "traces_validated_against_impl": r["runs"] + len(cons),
         "solver_scripts_enumerated": len(r["behaviours"]), "solver_configurations": r["cfgs"],
-        "constrained_step_traces": len(cons),
+        "constrained_step_traces": len(cons), "metric_change_cases": n_mc,
         "samples": [{"solver": b["cfg"]["solver"], "script": b["script"], "outcome": b["outcome"], "mu": b["mu"], "dpos": b["dpos"]},
                     {"scenario": IE._scname(cons[0]["sc"]), "events": [(e["op"], e["frac"], e["man"], e["cot"]) for e in cons[0]["ev"]]}],
     }
     out.assumptions = ["solver environment scripted through the user constraint function of a real 1-D DenseConstrainedEuclideanMetricSystem; residuals are signed powers of two",
                        "manifold / cotangent flags measured at 1e-7 on real constrained systems with 1-2 curved or linear constraints"]
     return out
+
+
+def metric_change_cotangent():
+    """The ambient metric of a constrained system is reassigned (what the metric adapters do at the end of a
+    slow window) and a momentum is drawn for a state that was used before: it must lie in the cotangent
+    space of the NEW metric."""
+    import numpy as np
+    from mbv import matzoo, zoo
+    from mici.states import ChainState
+
+    for kind in ("Constrained", "ConstrainedHausdorff", "GaussianConstrained"):
+        for first, second in (("dense", "diag"), ("diag", "dense")):
+            m = zoo.Model(3)
+            system = zoo.make_system(kind, m, metric=first)
+            q = zoo.on_manifold_point(m, 3)
+            st = ChainState(pos=q, mom=None, dir=1)
+            st.mom = system.sample_momentum(st, np.random.default_rng(1))
+            system.metric = matzoo.pos_def_metrics(3)[second][0]
+            p = system.sample_momentum(st, np.random.default_rng(2))
+            v = float(np.max(np.abs(m._jac(q) @ (system.metric.inv @ p))))
+            rp = {"engine": "metric-change", "kind": kind, "first": first, "second": second}
+            yield (f"C04:{kind}:sampled-momentum-after-metric-change",
+                   None if v < 1e-8 else f"{kind}: after reassigning system.metric ('{first}' -> '{second}') a momentum sampled for a "
+                   f"previously used state is outside the cotangent space: |J M^-1 p| = {v:.3g} (the Gram matrix cached in the state is stale)", rp)
 
 
 def replay(rep):
